@@ -10,7 +10,8 @@ from vt.e1.symexec import FA, sym_elem_fn
 from vt.e1.contract import (Contract, wf, positive_dims, lists_distinct, cores_fresh, meta_fresh, same_ints, lst_get, mk_tt,
                             mk_int_list, valid, type_domain, core_shape_ok)
 from vt.e1.tt_contracts import boundary_one
-from vt.e1.sle_contracts import opt, stack_ok, sol_core_ok, Lop, Rop, square, mk_stack
+from vt.e1.sle_contracts import (opt, stack_ok, sol_core_ok, Lop, Rop, square, mk_stack, tag_tt, tag_list, with_roles, roles_ok, merged_ok,
+                                  ROLES_OP, ROLES_SOL, ROLES_ENV_OP)
 
 REG = {}
 FILE = 'scikit_tt/solvers/evp.py'
@@ -70,6 +71,9 @@ class _EvpHelper(Contract):
         d = zi(op.order)
         g = mk_tt(state, 'operator_gevp', m0, order=op.order) if inst['gevp'] else NONE
         sol = mk_working_solution(state, op.order)
+        tag_tt(op, ROLES_OP)
+        tag_tt(g, ROLES_OP)
+        tag_tt(sol, ROLES_SOL)
         trains, stacks = SObj(fresh('trains_ref')), SObj(fresh('stacks_ref'))
         trains.f = {'operator': op, 'operator_gevp': g, 'solution': sol, 'previous': SList(fresh('prev_ref'), None, items=[])}
         stacks.f = {'op_left': mk_stack(state, 'op_left', d, 3, m0), 'op_right': mk_stack(state, 'op_right', d, 3, m0),
@@ -134,6 +138,8 @@ class _EvpStackHelper(_EvpHelper):
             yield 'other-slots-unchanged(%s)' % nm, FA(0, d, lambda j, l=l, l0=l0: z3.Implies(j != i, _same_entry(lst_get(l, j), lst_get(l0, j))))
             d_, a = opt(lst_get(l, i))
             yield 'slot-buffer-fresh(%s)' % nm, a is not None and a.buf >= S.mark0
+            # again an environment of <bra| . |ket>: conjugated cores on the bra legs, plain cores on the ket legs
+            yield 'sesquilinear-roles(%s)' % nm, z3.BoolVal(roles_ok(lst_get(l, i), ROLES_ENV_OP))
 
     def canary(self, S, res):
         d_, a = opt(lst_get(S.a['stacks'].f['op_' + self.side], zi(S.o['i'])))
@@ -143,7 +149,7 @@ class _EvpStackHelper(_EvpHelper):
         st = A['stacks']
         i = zi(A['i'])
         for nm in ['op_' + self.side] + (['op_gevp_' + self.side] if inst['gevp'] else []):
-            st.f[nm].set(i, SArr([fresh('st') for _ in range(3)], fresh('stcx', 'bool'), state.alloc(), True))
+            st.f[nm].set(i, with_roles(SArr([fresh('st') for _ in range(3)], fresh('stcx', 'bool'), state.alloc(), True), ROLES_ENV_OP))
         return NONE
 
 
@@ -216,6 +222,9 @@ class ConstructMicroMatrices(_EvpHelper):
             return
         n = lst_get(sol.ranks, i) * lst_get(op.row_dims, i) * lst_get(sol.ranks, i + 1)
         yield 'micro_op-square-of-core-size', z3.And(res[0].shape[0] == n, res[0].shape[1] == n, res[0].buf >= S.mark0)
+        yield 'sesquilinear-roles(micro_op)', z3.BoolVal(merged_ok(res[0], ('B', 'r', 'B', 'K', 'c', 'K')))
+        if isinstance(g, STT) and isinstance(res[1], SArr):
+            yield 'sesquilinear-roles(micro_op_gevp)', z3.BoolVal(merged_ok(res[1], ('B', 'r', 'B', 'K', 'c', 'K')))
         if isinstance(g, STT):
             gm = res[1]
             yield 'micro_op_gevp-same-size', isinstance(gm, SArr) and len(gm.shape) == 2 and z3.And(gm.shape[0] == n, gm.shape[1] == n, gm.buf >= S.mark0, gm.buf != res[0].buf)
@@ -228,6 +237,9 @@ class ConstructMicroMatrices(_EvpHelper):
     def effect(self, ex, state, A, inst, line):
         mo = SArr([fresh('mm0'), fresh('mm1')], fresh('mmcx', 'bool'), state.alloc(), True)
         gm = SArr([fresh('gm0'), fresh('gm1')], fresh('gmcx', 'bool'), state.alloc(), True) if inst['gevp'] else NONE
+        mo.at_call_site = True
+        if isinstance(gm, SArr):
+            gm.at_call_site = True
         return (mo, gm)
 
 
